@@ -121,6 +121,9 @@ fn huge(size: usize) {
     panic!("hugealloc");
 }
 
+/// per-thread initialisation (thread locals are lazily created; nothing to do yet)
+pub fn install_thread() {}
+
 pub fn install_panic_hook() {
     std::panic::set_hook(Box::new(|info| {
         let reentrant = IN_HOOK.with(|h| h.replace(true));
